@@ -743,6 +743,51 @@ def check_sensorlist(nsp, freqs, theta):
     return bad
 
 
+def check_sensors_untouched():
+    """a list of sensors that carry channel definitions (one radiometer channel each), one per snowpack: the run leaves the sensors as they
+    were, and a sensor reused afterwards for a batch gives every snowpack's value under its channel name"""
+    import copy
+    from smrt.inputs import sensor_list as sl
+    rng = np.random.default_rng(5)
+    m = dort_model()
+    sps = [mk_snowpack(rng, "u%d" % i, 1 + i % 2) for i in range(3)]
+    s19, s37 = sl.amsre("19V"), sl.amsre("37V")
+    before = [copy.deepcopy(dict(x.channel_map)) for x in (s19, s37)]
+    m.run([s19, s37], sps[:2])
+    after = [dict(x.channel_map) for x in (s19, s37)]
+    if before != after:
+        return ("user-write:sensor.channel_map", f"Model.run([amsre('19V'), amsre('37V')], [sp0, sp1]) changed the sensors' channel_map: {after} (was {before})",
+                str(after), str(before))
+    r = m.run(s19, sps)
+    got = np.atleast_1d(np.asarray(r.Tb(channel="19V"), dtype=float)).ravel()
+    want = np.array([float(np.asarray(m.run(s19, sp).Tb(channel="19V"))) for sp in sps])
+    if got.shape != want.shape or not np.array_equal(got, want):
+        return ("user-write:sensor.channel_map", f"after a sensor-list run, m.run(amsre('19V'), [3 snowpacks]).Tb(channel='19V') = {got.tolist()}", got.tolist(), want.tolist())
+    return None
+
+
+def check_coherent_untouched():
+    """the option process_coherent_layers=True (a thin ice lens treated as a coherent interface) leaves the caller's snowpack as it was, and
+    the same snowpack simulated afterwards at a frequency where the lens is not coherent gives the individual simulation's value"""
+    from smrt import make_snowpack, make_model
+    from smrt.core.sensor import passive
+    mk = lambda: make_snowpack([0.3, 0.01, 0.5, 1.0], "sticky_hard_spheres", density=[250., 900., 300., 350.], radius=[2e-4, 1e-4, 3e-4, 4e-4],
+                               stickiness=0.2, temperature=[255., 258., 262., 266.])
+    sp = mk()
+    m = make_model("iba", "dort", rtsolver_options=dict(n_max_stream=16, process_coherent_layers=True))
+    shape0 = (len(sp.layers), [type(i).__name__ for i in sp.interfaces], [float(l.thickness) for l in sp.layers])
+    m.run(passive(5e9, 40.), sp)
+    shape1 = (len(sp.layers), [type(i).__name__ for i in sp.interfaces], [float(l.thickness) for l in sp.layers])
+    if shape0 != shape1:
+        return ("user-write:snowpack.layers", f"a run with process_coherent_layers=True changed the caller's snowpack: {shape1} (was {shape0})", str(shape1), str(shape0))
+    got = np.asarray(m.run(passive(37e9, 40.), sp).data.values)
+    want = np.asarray(m.run(passive(37e9, 40.), mk()).data.values)
+    if not np.array_equal(got, want):
+        return ("user-write:snowpack.layers", "a snowpack simulated at 5 GHz with process_coherent_layers=True gives another value at 37 GHz afterwards than a fresh one",
+                got.tolist(), want.tolist())
+    return None
+
+
 def check_untouched(kind, active_mode, n=1, nlayer=2):
     rng = np.random.default_rng(11)
     user, shared, other, err, _ = writeset_run(rng, kind, active_mode, n, nlayer)
@@ -817,6 +862,14 @@ def oracle(ctx, hints, effort):
                 key = "shared-write:" + o
                 findings.setdefault(key, Finding(key, f"Model.run changes the shared location {o}, which is not one of the enumerated memo caches",
                                                  {"kind": "untouched", "substrate": kind, "active": act}, o, "only the enumerated caches"))
+    for name, fn in (("sensors", check_sensors_untouched), ("coherent", check_coherent_untouched)):
+        evals += 4
+        try:
+            r = fn()
+        except Exception as e:  # noqa
+            r = ("user-write:" + name + ":raises", f"{fn.__name__} raises {C.err_kind(e)}", C.err_kind(e), "a result")
+        if r is not None:
+            findings.setdefault(r[0], Finding(r[0], r[1], {"kind": "untouched-" + name}, r[2], r[3]))
     # sensor list with an iterated axis
     for (nsp, freqs) in ([(2, (18.7e9, 36.5e9))] if effort == "routine" else [(2, (18.7e9, 36.5e9)), (3, (10.65e9, 18.7e9)), (3, (6.925e9, 18.7e9, 36.5e9))]):
         evals += 1
@@ -852,6 +905,9 @@ def replay(inp, rp=None):
         if user or other:
             return Finding("?", "Model.run changes the caller's objects", inp, user + other, "no location changes")
         return None
+    if inp["kind"] in ("untouched-sensors", "untouched-coherent"):
+        r = check_sensors_untouched() if inp["kind"].endswith("sensors") else check_coherent_untouched()
+        return Finding(r[0], r[1], inp, r[2], r[3]) if r else None
     if inp["kind"] == "sensorlist":
         bad = check_sensorlist(inp["nsp"], tuple(inp["freqs"]), 55.)
         return Finding(K_ORDER, "sensor-list values misplaced", inp, bad[0][1], bad[0][2]) if bad else None
